@@ -156,3 +156,192 @@ def c10_scope(tier):
             P.append((f"fan{k}", 'Signal x = ("signal-A", 6);\nSignal y = ("signal-A", 2);\n' + "".join(
                 f"Signal z{i} = x + y;\nSignal w{i} = z{i} * {i + 2};\n" for i in range(k))))
     return P
+
+
+# ---------------------------------------------------------------------------------------------
+def c02_scope(tier):
+    """Bundles: literals, nested/merged, each-arithmetic (constant / member signal / foreign signal
+    operand), filters (copy / constant), gating, any/all, selection."""
+    B1 = 'Bundle b = { ("signal-A", 20), ("signal-B", 5), ("iron-plate", -3) };\n'
+    S = 'Signal s = ("signal-C", 3);\n'          # foreign scalar (not a member)
+    M = 'Signal m = ("signal-A", 2);\n'          # scalar on a member's signal name
+    P = []
+    ops = ARITH if tier != "quick" else ["+", "-", "*", "/", "%", ">>", "AND", "**"]
+    for op in ops:
+        P.append((f"each-const:{op}", B1 + f"Bundle r = b {op} 3;\n"))
+        P.append((f"each-foreign:{op}", B1 + S + f"Bundle r = b {op} s;\n"))
+    for op in (ops if tier != "quick" else ["+", "*", "-"]):
+        P.append((f"each-member:{op}", B1 + M + f"Bundle r = b {op} m;\n"))
+    for cmp_ in CMP:
+        P.append((f"filter-copy:{cmp_}", B1 + f"Bundle r = (b {cmp_} 4) : b;\n"))
+        P.append((f"filter-const:{cmp_}", B1 + f"Bundle r = (b {cmp_} 4) : 1;\n"))
+        P.append((f"filter-sig:{cmp_}", B1 + S + f"Bundle r = (b {cmp_} s) : b;\n"))
+        P.append((f"any:{cmp_}", B1 + f"Signal r = any(b) {cmp_} 5;\n"))
+        P.append((f"all:{cmp_}", B1 + f"Signal r = all(b) {cmp_} 5;\n"))
+        P.append((f"gate:{cmp_}", B1 + S + f"Bundle r = (s {cmp_} 3) : b;\n"))
+    P.append(("select", B1 + 'Signal r = b["signal-B"] * 2;\nSignal q = b["iron-plate"] + b["signal-A"];\n'))
+    P.append(("literal-computed", 'Signal x = ("signal-A", 6);\nSignal y = ("signal-B", 4);\n'
+              'Bundle r = { x * 2, y + 1, ("signal-C", 9) };\n'))
+    P.append(("nested", B1 + 'Bundle c = { ("signal-C", 7) };\nBundle r = { b, c };\nBundle q = r * 2;\n'))
+    P.append(("merge-signals", 'Signal x = ("signal-A", 6);\nSignal y = ("signal-B", 4);\nBundle r = { x, y };\nBundle q = r + 1;\n'))
+    P.append(("chain", B1 + "Bundle t = b * 2;\nBundle r = (t > 8) : t;\nSignal q = any(r) > 30;\n"))
+    P.append(("two-bundles", B1 + 'Bundle c = { ("signal-A", 1), ("signal-C", 7) };\nBundle r = b * 2;\nBundle q = c * 3;\n'))
+    P.append(("zero-members", 'Bundle b = { ("signal-A", 0), ("signal-B", 5) };\nBundle r = b + 10;\nSignal q = all(b) > 3;\nSignal p = any(b) < 1;\n'))
+    return P
+
+
+def c06_scope(tier):
+    X = 'Signal x = ("signal-A", 6);\nSignal y = ("signal-B", 2);\n'
+    protos = ["small-lamp", "inserter", "transport-belt", "pump", "power-switch", "train-stop"]
+    if tier == "quick":
+        protos = ["small-lamp", "inserter", "power-switch"]
+    enables = ["x > 3", "x >= y", "3 < x", "(x > 3) && (y < 2)", "x + y", "x", "(x > 3) : 5", "(x > 3) : -2",
+               "x * 0 + 1", "!(x == 4)", "(x > 1) || (y > 7)", "x - y > 0", "(x | \"signal-C\") > 2"]
+    P = []
+    for i, pr in enumerate(protos):
+        for j, en in enumerate(enables):
+            if tier == "quick" and (i + j) % 2:
+                continue
+            P.append((f"{pr}:{en}", X + f'Entity e = place("{pr}", {2 * i}, {3 * j});\ne.enable = {en};\n'))
+    P.append(("shared-sources", X + "".join(
+        f'Entity l{k} = place("small-lamp", {2 * k}, 0);\nl{k}.enable = x > {k};\n' for k in range(4))))
+    P.append(("shared-decider", X + 'Signal c = x > 3;\nEntity a = place("small-lamp", 0, 0);\na.enable = c;\n'
+              'Entity b = place("small-lamp", 2, 0);\nb.enable = c;\nSignal r = c + 1;\n'))
+    B = 'Bundle b = { ("signal-A", 20), ("signal-B", 5) };\n'
+    for q in ("any", "all"):
+        for cmp_ in ("<", ">", "=="):
+            P.append((f"inline-{q}{cmp_}", B + f'Entity l = place("small-lamp", 0, 0);\nl.enable = {q}(b) {cmp_} 10;\n'))
+    CH = 'Entity ch = place("steel-chest", 10, 10, {read_contents: 1});\n'
+    P.append(("chest-once", CH + 'Entity l = place("small-lamp", 0, 0);\nl.enable = ch.output["iron-plate"] > 10;\n'))
+    P.append(("chest-twice", CH + 'Entity l = place("small-lamp", 0, 0);\nl.enable = ch.output["iron-plate"] + ch.output["iron-plate"] > 9;\n'))
+    P.append(("chest-two-vars", CH + 'Bundle c1 = ch.output;\nBundle c2 = ch.output;\nEntity l = place("small-lamp", 0, 0);\n'
+              'l.enable = c1["iron-plate"] + c2["iron-plate"] > 9;\n'))
+    P.append(("chest-merge", CH + 'Signal x = ("iron-plate", 4);\nEntity l = place("small-lamp", 0, 0);\n'
+              'l.enable = ch.output["iron-plate"] + x > 9;\nEntity m = place("small-lamp", 2, 0);\nm.enable = ch.output["iron-plate"] * 2 > 9;\n'))
+    P.append(("two-chests", CH + 'Entity c2 = place("steel-chest", 14, 10, {read_contents: 1});\nEntity l = place("small-lamp", 0, 0);\n'
+              'l.enable = ch.output["iron-plate"] + c2.output["iron-plate"] > 9;\n'))
+    P.append(("chest-any", CH + 'Bundle c = ch.output;\nEntity l = place("small-lamp", 0, 0);\nl.enable = any(c) > 100;\n'))
+    return P
+
+
+def c09_scope(tier):
+    P = []
+    P.append(("lits", 'Entity a = place("small-lamp", 0, 0);\nEntity b = place("small-lamp", 5, 7);\nEntity c = place("steel-chest", 30, 12);\n'))
+    P.append(("multi-tile", 'Entity a = place("assembling-machine-1", 3, 4);\nEntity b = place("train-stop", 8, 16);\n'
+              'Entity c = place("storage-tank", 12, 0);\nEntity d = place("substation", 20, 20);\n'))
+    P.append(("int-vars", 'Signal s = ("signal-A", 1);\nint bx = 4;\nint by = -3;\nEntity a = place("small-lamp", bx, by);\na.enable = s > 0;\n'
+              'Entity b = place("small-lamp", bx * 2 + 1, by - 7);\nb.enable = s > 1;\nEntity c = place("small-lamp", -bx, (by / 2));\nc.enable = s > 2;\n'))
+    P.append(("loop", 'for i in 0..6 {\n  Entity l = place("small-lamp", i * 2, 10 - i);\n}\n'))
+    P.append(("loop-neg", 'Signal s = ("signal-A", 1);\nfor i in 0..4 {\n  Entity l = place("small-lamp", i * 2 - 3, 0 - i);\n  l.enable = s > i;\n}\n'))
+    P.append(("loop-desc", 'Signal s = ("signal-A", 1);\nfor i in 5..-5 step -3 {\n  Entity l = place("inserter", i, i * i);\n  l.enable = s > 0;\n}\n'))
+    P.append(("nested-loop", 'for i in 0..3 {\n  for j in [1, 4] {\n    Entity l = place("small-lamp", i * 3, j * 2 + i);\n  }\n}\n'))
+    P.append(("func", 'func mk(int x, int y) {\n  Entity l = place("small-lamp", x, y);\n  return l;\n}\nEntity a = mk(1, 2);\nEntity b = mk(3, 9);\n'
+              'for i in 0..2 {\n  Entity c = mk(10 + i, 10);\n}\n'))
+    P.append(("wired", 'Signal x = ("signal-A", 6);\n' + "".join(
+        f'Entity l{k} = place("small-lamp", {k * 12}, {k % 2 * 9});\nl{k}.enable = x > {k};\n' for k in range(5))))
+    P.append(("far", 'Signal x = ("signal-A", 6);\nEntity a = place("small-lamp", 0, 0);\na.enable = x > 1;\n'
+              'Entity b = place("small-lamp", 60, 0);\nb.enable = x > 2;\n'))
+    P.append(("props", 'Entity a = place("small-lamp", 0, 0, {use_colors: 1});\nEntity b = place("inserter", 2, 0, {direction: 4});\n'))
+    if tier != "quick":
+        P.append(("grid40", "for i in 0..8 {\n  for j in 0..5 {\n    Entity l = place(\"small-lamp\", i * 2, j * 2);\n  }\n}\n"))
+    return P
+
+
+def c15_scope(tier):
+    X = 'Signal x = ("signal-A", 6);\nSignal y = ("signal-B", 2);\n'
+    P = []
+    P.append(("simple", 'func dbl(Signal a) { return a * 2; }\n' + X + "Signal r = dbl(x);\nSignal q = dbl(y) + 1;\n"))
+    P.append(("int-coerce", 'func f(Signal a, int n) { return a * n + n; }\n' + X + "Signal r = f(x, 3);\nSignal q = f(7, 3);\nSignal p = f(y, -2);\n"))
+    P.append(("locals-shadow", 'func f(Signal a) {\n  Signal x = a + 100;\n  Signal t = x * 2;\n  return t;\n}\n' + X + "Signal r = f(y);\nSignal q = x + 1;\n"))
+    P.append(("nested", 'func g(Signal a) { return a + 1; }\nfunc f(Signal a) { return g(a) * g(a + 5); }\n' + X + "Signal r = f(x);\n"))
+    P.append(("nested-param-name", 'func inner(Signal v) { return v * 3; }\nfunc outer(Signal x) { return inner(x + 1) + x; }\n' + X + "Signal r = outer(y);\n"))
+    P.append(("global-read", 'func addx(Signal a) { return a + x; }\n' + X + "Signal r = addx(y);\n") if False else
+             ("two-calls-same-fn", 'func f(Signal a) { return (a > 3) : a; }\n' + X + "Signal r = f(x);\nSignal q = f(y);\n"))
+    P.append(("call-in-loop", 'func sc(Signal a, int k) { return a * k; }\n' + X + "for i in 1..4 {\n  Signal t = sc(x, i);\n  Entity l = place(\"small-lamp\", i * 2, 0);\n  l.enable = t > 10;\n}\n"))
+    P.append(("param-shadows-iterator", 'func scaled(int i) { return i * 2; }\nfor i in 1..4 {\n  Entity l = place("small-lamp", scaled(5) + i, 0);\n}\n'))
+    P.append(("signal-param-shadows-iterator", 'func add7(Signal i) { return i + 7; }\n' + X + "for i in 1..3 {\n  Signal t = add7(x);\n  Entity l = place(\"small-lamp\", i * 2, 0);\n  l.enable = t > 10;\n}\n"))
+    P.append(("entity-param", 'func cfg(Entity e, Signal s) { e.enable = s > 2; }\n' + X + 'Entity a = place("small-lamp", 0, 0);\ncfg(a, x);\nEntity b = place("small-lamp", 2, 0);\ncfg(b, y);\n'))
+    P.append(("entity-return", 'func mk(int px, Signal s) {\n  Entity l = place("small-lamp", px, 0);\n  l.enable = s > 1;\n  return l;\n}\n' + X + "Entity a = mk(0, x);\nEntity b = mk(4, y);\n"))
+    P.append(("typed-arg-override", 'func f(Signal a, Signal b) { return a - b; }\n' + X + "Signal r = f(x, y);\nSignal q = f(y, x);\n"))
+    return P
+
+
+def c16_scope(tier):
+    X = 'Signal x = ("signal-A", 6);\n'
+    P = []
+    triples = [(0, 3, None), (0, 7, 3), (5, 0, -2), (7, 0, -3), (2, 2, None), (3, 0, None), (-3, -4, -2), (-2, 3, 2), (0, 1, 5)]
+    if tier != "quick":
+        triples += [(a, b, s) for a in (-2, 0, 3) for b in (-3, 1, 4) for s in (-2, -1, 1, 2, 3)]
+    for (a, b, s) in triples:
+        step = f" step {s}" if s is not None else ""
+        P.append((f"range:{a}..{b}{step}", X + f"for i in {a}..{b}{step} {{\n  Entity l = place(\"small-lamp\", i * 2, 5);\n  l.enable = x > i;\n}}\n"))
+    P.append(("list", X + "for i in [4, -1, 9] {\n  Entity l = place(\"small-lamp\", i, 0);\n  l.enable = x * i > 8;\n}\n"))
+    P.append(("var-bounds", X + "int n = 3;\nint s = 2;\nfor i in 0..n * 2 step s {\n  Entity l = place(\"small-lamp\", i, 0);\n}\n") if False else
+             ("var-bounds", X + "int n = 6;\nint s = 2;\nfor i in 0..n step s {\n  Entity l = place(\"small-lamp\", i, 0);\n  l.enable = x > i;\n}\n"))
+    P.append(("nested", X + "for i in 0..2 {\n  for j in 0..3 {\n    Entity l = place(\"small-lamp\", i * 4 + j, i);\n    l.enable = x > i * 3 + j;\n  }\n}\n"))
+    P.append(("body-locals", X + "for i in 1..4 {\n  Signal t = x * i;\n  Signal u = t + 1;\n  Entity l = place(\"small-lamp\", i * 2, 0);\n  l.enable = u > 10;\n}\n"))
+    P.append(("iter-in-literal", "for i in 0..3 {\n  Signal c = (\"signal-A\", i * 5);\n  Entity l = place(\"small-lamp\", i * 2, 0);\n  l.enable = c > 6;\n}\n"))
+    P.append(("call-in-body", 'func sc(Signal a, int k) { return a * k + k; }\n' + X + "for i in 0..3 {\n  Entity l = place(\"small-lamp\", i * 2, 0);\n  l.enable = sc(x, i) > 10;\n}\n"))
+    P.append(("zero-iter", X + "for i in 3..3 {\n  Entity l = place(\"small-lamp\", i, 0);\n}\nSignal r = x + 1;\n"))
+    P.append(("param-shadows-iterator", 'func scaled(int i) { return i * 2; }\nfor i in 1..4 {\n  Entity l = place("small-lamp", scaled(5) + i, 0);\n}\n'))
+    return P
+
+
+def c12_scope(tier):
+    """Pairs of computations with disjoint variables but overlapping signal names, interleaved."""
+    P1 = ['Signal a1 = ("signal-A", 3);', 'Signal b1 = ("signal-B", 10);', "Signal r1 = a1 * b1;"]
+    Q1 = ['Signal a2 = ("signal-A", 5);', 'Signal b2 = ("signal-B", 100);', "Signal r2 = a2 + b2;"]
+    P2 = ['Signal p = ("signal-A", 3);', "Signal pr = (p > 2) : p;", "Signal ps = pr * 4;"]
+    Q2 = ['Signal q = ("signal-A", 7);', "Signal qr = q % 4;", "Signal qs = qr - 1;"]
+    P3 = ['Signal u = ("iron-plate", 3);', 'Entity lu = place("small-lamp", 0, 0);', "lu.enable = u > 2;"]
+    Q3 = ['Signal v = ("iron-plate", 9);', 'Entity lv = place("small-lamp", 4, 0);', "lv.enable = v < 5;"]
+    P4 = ['Bundle bp = { ("signal-A", 1), ("signal-B", 2) };', "Bundle rp = bp * 3;"]
+    Q4 = ['Bundle bq = { ("signal-A", 10), ("signal-C", 20) };', "Bundle rq = (bq > 5) : bq;"]
+    out = []
+    for tag, (A, Bq) in {"arith": (P1, Q1), "chains": (P2, Q2), "lamps": (P3, Q3), "bundles": (P4, Q4)}.items():
+        inter = list(_interleavings(A, Bq))
+        if tier == "quick":
+            inter = inter[:: max(1, len(inter) // 4)]
+        for k, seq in enumerate(inter):
+            out.append((f"{tag}#{k}", "\n".join(seq) + "\n"))
+    return out
+
+
+def _interleavings(a, b):
+    if not a:
+        yield list(b)
+        return
+    if not b:
+        yield list(a)
+        return
+    for rest in _interleavings(a[1:], b):
+        yield [a[0]] + rest
+    for rest in _interleavings(a, b[1:]):
+        yield [b[0]] + rest
+
+
+def c13_scope(tier):
+    P = []
+    P.append(("untyped-with-A", 'Signal a = ("signal-A", 5);\nSignal b = 7;\nSignal r = a + 1;\nSignal q = b * 2;\n'))
+    P.append(("untyped-with-letters", "".join(f'Signal e{c} = ("signal-{c}", {i + 1});\n' for i, c in enumerate("ABCDE")) + "Signal u = 9;\nSignal v = 11;\nSignal r = u + v;\nSignal q = eA + eB;\n"))
+    P.append(("untyped-in-bundle", 'Signal a = ("signal-A", 5);\nSignal u = 7;\nBundle b = { a, u };\nBundle r = b * 2;\n'))
+    P.append(("untyped-cmp", 'Signal a = ("signal-A", 5);\nSignal c = ("iron-plate", 3) > 2;\nSignal r = c + a;\n'))
+    P.append(("many-untyped", "".join(f"Signal u{i} = {i + 1};\n" for i in range(30 if tier == "quick" else 40)) + "Signal r = u0 + u29;\n"))
+    P.append(("untyped-lamp", 'Signal a = ("signal-A", 5);\nSignal u = 7;\nEntity l = place("small-lamp", 0, 0);\nl.enable = u > a;\n'))
+    P.append(("explicit-digits", 'Signal z = ("signal-0", 5);\nSignal o = ("signal-1", 6);\nSignal u = 3;\nSignal r = u * z + o;\n'))
+    P.append(("cond-const", 'Signal a = ("signal-A", 5);\nSignal b = ("signal-B", 5);\nSignal r = (a > 3 && b < 9) : 4;\nSignal q = a + b;\n'))
+    return P
+
+
+def c20_scope(tier):
+    X = 'Signal x = ("signal-A", 6);\nSignal y = ("signal-B", 2);\n'
+    P = []
+    P.append(("mixed", X + "Signal used = x + 1;\nSignal out1 = used * 2;\nSignal out2 = y - 1;\n"))
+    P.append(("alias", X + "Signal t = x * 3;\nSignal alias1 = t;\nSignal alias2 = t;\n"))
+    P.append(("const-out", 'Signal k = ("signal-C", 42);\n' + X + "Signal r = x + y;\n"))
+    P.append(("decider-out", X + "Signal r = x > y;\nSignal q = (x > 1) : y;\n"))
+    P.append(("merge-out", 'Signal a = ("signal-A", 1);\nSignal b = ("signal-A", 2);\nSignal r = a + b;\n'))
+    P.append(("func-out", 'func f(Signal a) { return a * 2 + 1; }\n' + X + "Signal r = f(x);\nSignal q = f(y);\n"))
+    P.append(("bundle-out", 'Bundle b = { ("signal-A", 20), ("signal-B", 5) };\nBundle r = b * 2;\nSignal s = b["signal-A"] + 1;\n'))
+    P.append(("consumed-by-entity", X + 'Signal c = x > 3;\nEntity l = place("small-lamp", 0, 0);\nl.enable = c;\nSignal r = y + 1;\n'))
+    return P
